@@ -28,6 +28,7 @@ type Expr struct {
 	M     string   `json:"m"`
 	Cls   string   `json:"cls"`
 	Tgt   *Expr    `json:"tgt"`
+	Chain bool     `json:"chain"` // layout only: render nested method calls as 以X（a）、（b）
 }
 
 type Stmt struct {
@@ -84,7 +85,7 @@ type Prog struct {
 var Sym = map[string]string{
 	"@display": "显示", "@exc": "异常", "@content": "内容", "@len": "长度", "@first": "首项", "@last": "末项",
 	"@append": "后增", "@prepend": "前增", "@shift": "左移", "@pop": "右移", "@put": "写入", "@remove": "移除",
-	"@true": "真", "@false": "假", "@null": "空", "@random": "取随机数", "@num": "数值",
+	"@self": "自身", "@true": "真", "@false": "假", "@null": "空", "@random": "取随机数", "@num": "数值",
 }
 
 func Name(s string) string {
@@ -186,6 +187,33 @@ func E(e *Expr) string {
 		}
 		return s
 	case "mcall":
+		if e.Chain && e.E.K == "mcall" {
+			// 以 X（a）、（b）: flatten the nested method calls into the chain form
+			var calls []*Expr
+			var root *Expr
+			cur := e
+			for {
+				calls = append([]*Expr{cur}, calls...)
+				if cur.Chain && cur.E.K == "mcall" {
+					cur = cur.E
+				} else {
+					root = cur.E
+					break
+				}
+			}
+			s := "以" + operand(root)
+			for i, c := range calls {
+				if i > 0 {
+					s += "、"
+				}
+				s += "（" + Name(c.M)
+				if len(c.Args) > 0 {
+					s += "：" + args(c.Args)
+				}
+				s += "）"
+			}
+			return s
+		}
 		s := "以" + operand(e.E) + "（" + Name(e.M)
 		if len(e.Args) > 0 {
 			s += "：" + args(e.Args)
@@ -206,7 +234,12 @@ func E(e *Expr) string {
 func args(as []*Expr) string {
 	var it []string
 	for _, a := range as {
-		it = append(it, E(a))
+		if a.K == "mcall" {
+			// 以X（m）、… would read as a call chain: brace a method call used as an argument
+			it = append(it, "{"+E(a)+"}")
+		} else {
+			it = append(it, E(a))
+		}
 	}
 	return strings.Join(it, "、")
 }
